@@ -40,6 +40,8 @@ TARGETS = {
     ("parser/rule.py", "resolve_forward_type"), ("parser/rule.py", "register_forward_ref"), ("parser/rule.py", "register_forward_refs"),
     ("utils/base.py", "resolve"), ("utils/base.py", "register"), ("utils/base.py", "decorator"), ("utils/transform.py", "resolver_transformer"),
     ("utils/transform.py", "__call__"), ("parser/cls.py", "init_dataclass"), ("parser/cls.py", "transform_dataclass"),
+    # union resolution consults per-type facts about its members (does a member contain ~ / ^ ?)
+    ("parser/rule.py", "logical_parse"), ("parser/rule.py", "_widens_when_strict"),
 }
 _uid = itertools.count()
 _S = {}
@@ -95,12 +97,19 @@ def _local_classes():
     return L1, L2
 L1, L2 = _local_classes()
 """
-    parts = [local] + ([fn] if shape["fn_first"] else [])
+    # unions with a negated / exclusive member (the strict preliminary stages of a union skip such members)
+    wide = """
+class W(Schema):
+    x: (~utype.types.Int) | str = None
+    y: typing.Union[int, utype.types.PositiveInt ^ utype.types.Float, None] = None
+    z: typing.List[(~utype.types.Str) | int] = Field(default_factory=list)
+"""
+    parts = [local, wide] + ([fn] if shape["fn_first"] else [])
     parts += [cls_b, cls_a] if b_first else [cls_a, cls_b]
     if not shape["fn_first"]:
         parts.append(fn)
     parts.append(amt)
-    return ("import typing\nfrom typing import List, Optional, Union, Dict, Iterator\nimport utype\nfrom utype import Schema, DataClass, Field, Param, parse\n"
+    return ("import typing\nfrom typing import List, Optional, Union, Dict, Iterator\nimport utype\nfrom utype import Schema, DataClass, Field, Param, parse\nimport utype.types\n"
             + "".join(parts) + f"\nA, B, Amt = {A}, {B}, {M}\n")
 
 
@@ -109,6 +118,7 @@ CALLS = [
     ["from", "A", {"v": 1, "bs": [{"w": "x", "a": {"v": 3}}]}, {}], ["from", "B", {"w": 1, "a": {"v": "2", "amt": 100}}, {}], ["from", "B", {"w": "s", "a": {"v": 2, "amt": 0}}, {}],
     ["from", "B", {}, {}], ["call", "fn", {"args": [{"v": 3}]}, {}], ["call", "fn", {"args": [{"v": 3}, 500]}, {}], ["call", "fn", {"args": [{"v": 3, "bs": [{"w": 1}]}, "7"]}, {}],
     ["call", "fn", {"args": [{"v": "x"}]}, {}], ["gen", "gen", {"args": [2]}, {}], ["gen", "gen", {"args": [1, {"w": 4}]}, {}], ["gen", "gen", {"args": [1, {"w": 4, "a": {"v": -5}}]}, {}],
+    ["from", "W", {"x": 3.5}, {}], ["from", "W", {"x": "a", "y": "7"}, {}], ["from", "W", {"x": 2, "z": ["1", 2.5]}, {}], ["from", "W", {"y": 2.0, "z": [3.5]}, {}],
     ["from", "L1", {"t": {"w": 1}}, {}], ["from", "L2", {"t": {"w": "x"}, "u": "2"}, {}], ["from", "L1", {"t": {"w": 2, "a": {"v": -1}}}, {}], ["from", "L2", {"t": {"w": 3}}, {}],
 ]
 
